@@ -1,0 +1,213 @@
+//! Verification hook `HeaderExClientSim` (compiled only with `--cfg eigerco_lumina_verif`).
+//!
+//! The real (private) `HeaderExClientHandler` driven with a recording `RequestSender` and a real
+//! `PeerTracker`. It is the `#[cfg(test)]` `MockReq` mechanism of `client.rs` made available to the
+//! external harness through public types only. Nothing here changes the behaviour of the wrapped
+//! code: every method forwards to exactly one method of the handler / the peer tracker.
+
+use std::task::{Context, Poll};
+
+use celestia_proto::p2p::pb::{HeaderRequest, HeaderResponse};
+use celestia_types::ExtendedHeader;
+use libp2p::PeerId;
+use libp2p::request_response::OutboundFailure;
+use libp2p::swarm::ConnectionId;
+use tokio::sync::oneshot;
+
+use super::{HeaderExClientHandler, RequestSender};
+use crate::events::EventChannel;
+use crate::p2p::P2pError;
+use crate::p2p::header_ex::Event;
+use crate::peer_tracker::PeerTracker;
+
+#[derive(Debug, Clone, Copy, Hash, PartialEq, Eq)]
+struct SimReqId(u64);
+
+struct SimSender {
+    next_id: u64,
+    sent: Vec<SentRequest>,
+}
+
+impl RequestSender for SimSender {
+    type RequestId = SimReqId;
+
+    fn send_request(&mut self, peer: &PeerId, request: HeaderRequest) -> SimReqId {
+        let id = self.next_id;
+        self.next_id += 1;
+        self.sent.push(SentRequest {
+            id,
+            peer: *peer,
+            request,
+        });
+        SimReqId(id)
+    }
+}
+
+/// One call of `RequestSender::send_request` made by the client handler.
+#[derive(Debug, Clone)]
+pub struct SentRequest {
+    /// Identifier to pass back to `on_response` / `on_failure`.
+    pub id: u64,
+    /// Peer the handler chose.
+    pub peer: PeerId,
+    /// Request as handed to the sender.
+    pub request: HeaderRequest,
+}
+
+/// Mirror of the (crate private) `header_ex::Event`.
+#[derive(Debug, Clone, Copy, PartialEq, Eq)]
+pub enum ClientSimEvent {
+    SchedulePendingRequests,
+    NeedTrustedPeers,
+    NeedArchivalPeers,
+}
+
+/// Mirror of `OutboundFailure` (which is not `Clone`).
+#[derive(Debug, Clone, Copy, PartialEq, Eq)]
+pub enum SimOutboundFailure {
+    DialFailure,
+    Timeout,
+    ConnectionClosed,
+    UnsupportedProtocols,
+    Io,
+}
+
+/// State of a peer as reported by the real `PeerTracker`.
+#[derive(Debug, Clone, Copy, PartialEq, Eq)]
+pub struct SimPeerState {
+    pub connected: bool,
+    pub trusted: bool,
+    pub archival: bool,
+}
+
+/// Answer channel handed to a caller of `send_request`.
+pub type SimAnswerReceiver = oneshot::Receiver<Result<Vec<ExtendedHeader>, P2pError>>;
+
+/// Real header-ex client handler + recording sender + real peer tracker.
+pub struct HeaderExClientSim {
+    handler: HeaderExClientHandler<SimSender>,
+    sender: SimSender,
+    tracker: PeerTracker,
+    _events: EventChannel,
+}
+
+impl Default for HeaderExClientSim {
+    fn default() -> Self {
+        Self::new()
+    }
+}
+
+impl HeaderExClientSim {
+    pub fn new() -> Self {
+        let events = EventChannel::new();
+        let tracker = PeerTracker::new(events.publisher());
+
+        HeaderExClientSim {
+            handler: HeaderExClientHandler::new(),
+            sender: SimSender {
+                next_id: 0,
+                sent: Vec::new(),
+            },
+            tracker,
+            _events: events,
+        }
+    }
+
+    // ---- peer tracker (the calls `P2p`'s worker makes) ----
+
+    /// `PeerTracker::set_trusted`
+    pub fn set_trusted(&mut self, peer: &PeerId, trusted: bool) {
+        self.tracker.set_trusted(peer, trusted);
+    }
+
+    /// `PeerTracker::add_connection`
+    pub fn add_connection(&mut self, peer: &PeerId, connection: usize) {
+        self.tracker
+            .add_connection(peer, ConnectionId::new_unchecked(connection));
+    }
+
+    /// `PeerTracker::remove_connection`
+    pub fn remove_connection(&mut self, peer: &PeerId, connection: usize) {
+        self.tracker
+            .remove_connection(peer, ConnectionId::new_unchecked(connection));
+    }
+
+    /// `PeerTracker::mark_as_archival`
+    pub fn mark_as_archival(&mut self, peer: &PeerId) {
+        self.tracker.mark_as_archival(peer);
+    }
+
+    /// What the peer tracker currently says about `peer` (`None`: unknown peer).
+    pub fn peer_state(&self, peer: &PeerId) -> Option<SimPeerState> {
+        self.tracker.peer(peer).map(|p| SimPeerState {
+            connected: p.is_connected(),
+            trusted: p.is_trusted(),
+            archival: p.is_archival(),
+        })
+    }
+
+    // ---- client handler ----
+
+    /// `HeaderExClientHandler::on_send_request` with a fresh answer channel.
+    pub fn send_request(&mut self, request: HeaderRequest) -> SimAnswerReceiver {
+        let (tx, rx) = oneshot::channel();
+        self.handler.on_send_request(request, tx);
+        rx
+    }
+
+    /// `HeaderExClientHandler::schedule_pending_requests` (what the worker does on
+    /// `Event::SchedulePendingRequests`).
+    pub fn schedule_pending_requests(&mut self) {
+        self.handler
+            .schedule_pending_requests(&mut self.sender, &self.tracker);
+    }
+
+    /// Requests handed to the sender since the last call.
+    pub fn take_sent(&mut self) -> Vec<SentRequest> {
+        std::mem::take(&mut self.sender.sent)
+    }
+
+    /// `HeaderExClientHandler::on_response_received`
+    pub fn on_response(&mut self, peer: PeerId, id: u64, responses: Vec<HeaderResponse>) {
+        self.handler
+            .on_response_received(peer, SimReqId(id), responses);
+    }
+
+    /// `HeaderExClientHandler::on_failure`
+    pub fn on_failure(&mut self, peer: PeerId, id: u64, failure: SimOutboundFailure) {
+        let error = match failure {
+            SimOutboundFailure::DialFailure => OutboundFailure::DialFailure,
+            SimOutboundFailure::Timeout => OutboundFailure::Timeout,
+            SimOutboundFailure::ConnectionClosed => OutboundFailure::ConnectionClosed,
+            SimOutboundFailure::UnsupportedProtocols => OutboundFailure::UnsupportedProtocols,
+            SimOutboundFailure::Io => {
+                OutboundFailure::Io(std::io::Error::new(std::io::ErrorKind::Other, "sim"))
+            }
+        };
+        self.handler.on_failure(peer, SimReqId(id), error);
+    }
+
+    /// `HeaderExClientHandler::on_stop`
+    pub fn stop(&mut self) {
+        self.handler.on_stop();
+    }
+
+    /// `HeaderExClientHandler::poll`
+    pub fn poll(&mut self, cx: &mut Context<'_>) -> Poll<ClientSimEvent> {
+        self.handler.poll(cx).map(|ev| match ev {
+            Event::SchedulePendingRequests => ClientSimEvent::SchedulePendingRequests,
+            Event::NeedTrustedPeers => ClientSimEvent::NeedTrustedPeers,
+            Event::NeedArchivalPeers => ClientSimEvent::NeedArchivalPeers,
+        })
+    }
+
+    /// `HeaderExClientHandler::has_pending_requests` (requests waiting for a peer).
+    pub fn has_pending_requests(&self) -> bool {
+        self.handler.has_pending_requests()
+    }
+
+    /// Number of requests the handler considers in flight (sent, not yet resolved).
+    pub fn in_flight(&self) -> usize {
+        self.handler.reqs.len()
+    }
+}
